@@ -329,6 +329,7 @@ func init() {
 			"(LD) on every feasible path of MatVecMul, MatMul, Outer and Inner each argument of the gemv/gemm/ger/dot call - transposition flags, dimensions, leading dimensions, buffers, operand order - is the one the operand's data order, lazy-transpose state and logical shape require under the row-major BLAS convention (term propagation along the path against a derived reference; 41 layout cases); (P2) the gateways and their callers do not write their operands (Dot and Outer do: known findings 13, 14). Not decided: the routines themselves (trusted by name), the reshape/permutation arithmetic of TensorMul/Contract, Dot's dispatch table beyond delegation, rounding. Round 7: (K1w/T8/T9) the copying transpose kernels the general contraction relies on; (PI) parameter integrity of the wrappers; L1 goals on the float engines' Inner (finding 79).",
 		Run: func(rc *rules.RC) {
 			rules.AL(rc, 0)
+			rules.LC(rc, 18)
 			rules.SC(rc)
 			rules.T7(rc)
 			rules.LD2(rc)
@@ -555,6 +556,7 @@ func init() {
 			rules.O6opt(rc)
 			rules.M2(rc, nil, 40, 900)
 			rules.M7(rc, 300)
+			rules.LC(rc, 18) // a flat kernel or copy added to the hand-written option handling (handleIncr, handleReuse)
 			rules.O12(rc) // the interpreter's frame treats the scalar's scratch header as writable: it never aliases an operand
 			rules.IP3(rc)
 			rules.L0(rc, nil)
